@@ -106,6 +106,12 @@ func runC10(c *engine.Ctx) {
 
 	// ---- R16 a closed listener / removed route is not served from a memo (shared with C06.R13) ----
 	checkFreshLookup(c, "R16")
+
+	// ---- R17 the group worker and the user connection it holds are released when the group goes away (shared with C11.R12) ----
+	checkLastLeaveWakes(c, "R17")
+
+	// ---- R18 a close request is not held up behind a mutex somebody keeps while waiting for a peer (shared with C16.R23) ----
+	checkNoWaitUnderLock(c, engine.AnalyzeLocks(c.P), "R18")
 }
 
 // checkQueuedClosureCaptures: a closure that is stored for later execution (appended to a closeFuncs-like slice field)
@@ -468,6 +474,11 @@ func checkRollbackDepth(c *engine.Ctx, tab *resTable, name string, f *ssa.Functi
 		pc := engine.PathCheck{Fn: f, From: s.call, Sink: engine.IsReturn, EventsBeforeFrom: true,
 			Event: func(in ssa.Instruction) string {
 				if d, ok := in.(*ssa.Defer); ok {
+					if engine.DeferExpanded(d) {
+						// judged where it runs: the expanded body contributes its releases at the function's exit, under
+						// the condition it tests on the value its captured variable holds then
+						return ""
+					}
 					if cf := engine.CalleeFn(d); cf != nil {
 						has := false
 						for _, g := range append([]*ssa.Function{cf}, allAnon(cf)...) {
@@ -486,7 +497,7 @@ func checkRollbackDepth(c *engine.Ctx, tab *resTable, name string, f *ssa.Functi
 					}
 					return ""
 				}
-				if isRelease(in, kinds, results) {
+				if isRelease(in, kinds, results) || (results != nil && in.Parent() != f && isReleaseOfCaptured(in, cv)) {
 					return "release"
 				}
 				return ""
